@@ -37,9 +37,9 @@ static void hkdf_stream(const args_t *a, long idx)
     int no = 0;
     if (idx >= 512) { kl = rnd(&r, 200); sl = rnd(&r, 130); il = rnd(&r, 200); }
     if (idx % 16 == 7) {        /* power-of-two neighbourhoods for one of the three inputs */
-        static const unsigned SP[] = {127, 128, 129, 255, 256, 257, 511, 512, 513, 1023, 1024, 1025, 4095, 4096, 4097};
-        unsigned v = SP[(idx / 16) % 15];
-        if ((idx / 240) % 3 == 0) kl = v; else if ((idx / 240) % 3 == 1) sl = v; else il = v;
+        static const unsigned SP[] = {127, 128, 129, 255, 256, 257, 511, 512, 513, 1023, 1024, 1025, 4095, 4096, 4097, 65535, 65536, 65537};
+        unsigned v = SP[(idx / 16) % 18];
+        if ((idx / 16) % 3 == 0) kl = v; else if ((idx / 16) % 3 == 1) sl = v; else il = v;
     }
     set_case("{\"h\":\"kdf\",\"mode\":\"hkdf\",\"i\":%ld,\"keylen\":%zu,\"saltlen\":%zu,\"infolen\":%zu,\"bytes\":\"%s\",\"null0\":%d}",
              idx, kl, sl, il, bc_name[bc], nullmode);
@@ -201,7 +201,7 @@ int main(int argc, char **argv)
     args_t a = parse_args(argc, argv);
     long idx = 0, i;
     install_crash_handlers();
-    gb_init(&gOUT, "out", 1 << 15); gb_init(&gKEY, "key", 8192); gb_init(&gSALT, "salt", 8192); gb_init(&gINFO, "info", 8192);
+    gb_init(&gOUT, "out", 1 << 15); gb_init(&gKEY, "key", 1 << 17); gb_init(&gSALT, "salt", 1 << 17); gb_init(&gINFO, "info", 1 << 17);
     if (!strcmp(a.mode, "hkdf")) {
         for (i = 0; i < a.p1; ++i, ++idx) if (mine(&a, idx)) hkdf_stream(&a, idx);
     } else if (!strcmp(a.mode, "pbkdf2")) {
@@ -219,7 +219,22 @@ int main(int argc, char **argv)
           for (i = 0; i < (a.thorough ? 5 : 3); ++i, ++idx) if (mine(&a, idx)) pbkdf2_case(&a, idx, i % 2 ? 33 : 20, PWL[(i + 2) % 7], 8, BC[i]); }
         { static const unsigned SP[] = {127, 128, 129, 255, 256, 257, 1023, 1024, 1025, 4096};
           for (i = 0; i < 10; ++i, ++idx) if (mine(&a, idx)) pbkdf2_case(&a, idx, 40 + (size_t)i, SP[i], (size_t)(i * 5), 2);       /* special password lengths */
-          for (i = 0; i < 10; ++i, ++idx) if (mine(&a, idx)) pbkdf2_case(&a, idx, 33, (size_t)(i * 9), SP[i], 1 + (unsigned long)(i % 3)); }  /* special salt lengths */
+          for (i = 0; i < 13; ++i, ++idx) if (mine(&a, idx)) pbkdf2_case(&a, idx, 33, (size_t)(i * 9), SP[i], 1 + (unsigned long)(i % 3)); }  /* special salt lengths */
+        /* iteration counts beyond 16 bits: too slow for the model, but a count that is narrowed to 16 bits makes
+         * count = 65536 + k indistinguishable from k (relational oracle, library only) */
+        for (i = 0; i < 2; ++i, ++idx) {
+            uint8_t o1[40], o2[40], o3[40];
+            static const uint8_t pw[9] = "password", st[4] = {1, 2, 3, 4};
+            unsigned long k = 3 + (unsigned long)i;
+            if (!mine(&a, idx)) continue;
+            set_case("{\"h\":\"kdf\",\"mode\":\"pbkdf2-count-truncation\",\"i\":%ld,\"counts\":[%lu,%lu,%lu]}", idx, k, 65536 + k, 65535 + k);
+            ++n_eval; ++n_relational; cls_add(mix64(0x9BCC, (uint64_t)i)); emit_sample();
+            tinyjambu_pbkdf2(o1, 40, pw, 8, st, 4, k);
+            tinyjambu_pbkdf2(o2, 40, pw, 8, st, 4, 65536 + k);
+            tinyjambu_pbkdf2(o3, 40, pw, 8, st, 4, 65535 + k);
+            if (!memcmp(o1, o2, 40)) emit_viol("pbkdf2-count-truncated:16-bit", "count=%lu and count=%lu give the same output", k, 65536 + k);
+            if (!memcmp(o2, o3, 40)) emit_viol("pbkdf2-count-ignored", "count=%lu and count=%lu give the same output", 65536 + k, 65535 + k);
+        }
         for (i = 0; i < a.p3; ++i, ++idx) {
             rng_t r = rng_for(a.seed, 0x9B02, (uint64_t)i);
             size_t ol = rnd(&r, 6) == 0 ? rnd(&r, 2000) : rnd(&r, 130);
